@@ -12,7 +12,7 @@ class Fault:
     """Event-indexed fault: the k-th boundary event (call start, store read, write before/after effect,
     modified-time query) raises."""
 
-    def __init__(self, H, k=None, kind="exc", only=None):
+    def __init__(self, H, k=None, kind="exc", only=None, transient=None, sticky=False):
         self.H = H
         self.k = k
         self.kind = kind
@@ -20,6 +20,9 @@ class Fault:
         self.fired = None
         self.only = only  # restrict to a boundary kind
         self.log = []
+        self.transient = transient  # an earlier boundary event that fails ONCE (what run(retry=n) absorbs)
+        self.transient_fired = None
+        self.sticky = sticky  # the operation that fails at event k fails at every later attempt as well (so that retry cannot absorb the cut)
 
     def boundary(self, bkind, key):
         H = self.H
@@ -31,8 +34,16 @@ class Fault:
             if len(self.log) < 5000:
                 self.log.append((bkind, key))
             fire = self.k is not None and c == self.k and self.fired is None
+            tfire = False
             if fire:
                 self.fired = (bkind, key)
+            elif self.sticky and self.fired == (bkind, key):
+                fire = True
+            elif self.transient is not None and c == self.transient and self.transient_fired is None and self.fired is None:
+                self.transient_fired = (bkind, key)
+                tfire = True
+        if tfire:
+            raise InjectedError(f"transient failure at boundary event {c}: {bkind} {key}")
         if fire:
             if self.kind == "base":
                 raise InjectedBase(f"cut at boundary event {c}: {bkind} {key}")
@@ -228,7 +239,8 @@ def _run_history(desc, props=("C03", "C05", "C09")):
         tr = c18.transitions(desc["tz"], trng)
         if tr:
             T0, kind = trng.choice(tr)
-            S.use_instants(T0 - trng.choice([300, 1800, 3000, 3500]), trng.choice([37, 97, 181]), trng)
+            # (steps that divide 3600 s make stores report the SAME wall-clock time in the two passes of a repeated hour, differing in fold only)
+            S.use_instants(T0 - trng.choice([300, 1800, 3000, 3500]), trng.choice([37, 97, 181, 900, 1800, 3600]), trng)
             stats["histories_across_dst_transition"] = 1
     steps = desc.get("steps", 8)
     fresh = None
